@@ -131,3 +131,6 @@ func ExploreTyped[K comparable](r interface{ MarkCapped() }, run func(cfg seqmc.
 	}
 	return res
 }
+
+// ModelKey: see H.ModelKey.
+func (x *T[K]) ModelKey() string { return fmt.Sprint(x.Model, x.U.Phase()) }
